@@ -891,12 +891,22 @@ if not sys.executable.startswith("/verif/.venv"):
     os.execv("/verif/.venv/bin/python", ["/verif/.venv/bin/python"] + sys.argv)
 sys.path.insert(0, "/verif")
 from checks import pmode
-sys.exit(pmode.replay({kind!r}, {cfg!r}, {detail!r}))
+sys.exit(pmode.replay({kind!r}, {cfg!r}, {detail!r}, {history}))
 '''
 
 
-def replay(kind, cfg, detail):
+def replay(kind, cfg, detail, history=()):
     """concrete re-check against the real library and the layout decoder"""
+    if history:
+        # the harnesses the finding worker had run before, repeated concretely first (outcome ignored)
+        import contextlib, io
+
+        for hk, hc in history:
+            try:
+                with contextlib.redirect_stdout(io.StringIO()):
+                    replay(hk, tuple(hc) if isinstance(hc, list) else hc, None)
+            except Exception:  # noqa
+                pass
     from vx.layoutspec import Decoder
     from vx import typegen as tg, values as V
 
